@@ -51,7 +51,9 @@ def case(draw):
     profile = draw(st.sampled_from(['default', 'ebuild', 'ebuild',
                                     'old-ebuild', 'old-ebuild']))
     o = {'profile': profile, 'hashes': None, 'watermark': None,
-         'format': None}
+         'format': None,
+         # library API with an explicit sort override (None: the CLI)
+         'sort': draw(st.sampled_from([None, None, None, False, True]))}
     if profile == 'default' or draw(st.integers(0, 3)) == 0:
         o['hashes'] = draw(st.sampled_from([['SHA256'], ['MD5', 'SHA1'],
                                             ['BLAKE2B', 'SHA512', 'MD5']]))
@@ -202,7 +204,8 @@ def check_manifests(root, o, what, created_now, classes, prior_entries=None,
                         f'{profile} profile prescribes {want}',
                         sig=f'wrong-tag:{want}->{e.tag}', classes=classes)
         # sorting
-        if profile != 'default':
+        if (profile != 'default' and o.get('sort') is not False) \
+                or o.get('sort') is True:
             keys = [(e.tag, e.path if e.tag != 'TIMESTAMP' else '')
                     for e in entries]
             # AUX sorts by its stored path (files/...) in gemato; compare on
@@ -258,6 +261,39 @@ def cli_args(o):
     return a
 
 
+def run_gemato(cmd, o, path, extra=()):
+    """`gemato <cmd> ... <path>`; with a sort override the same through the
+    library (the command line has no sort option)."""
+    if o.get('sort') is None or '-f' in extra:
+        return gem.cli([cmd] + cli_args(o) + list(extra) + [path])
+
+    def run():
+        from gemato.profile import get_profile_by_name
+        from gemato.find_top_level import find_top_level_manifest
+        kw = {'profile': get_profile_by_name(o['profile']),
+              'sort': o['sort']}
+        if o['hashes']:
+            kw['hashes'] = list(o['hashes'])
+        if o['watermark'] is not None:
+            kw['compress_watermark'] = o['watermark']
+        if o['format']:
+            kw['compress_format'] = o['format']
+        if cmd == 'create':
+            top = os.path.join(path, 'Manifest')
+            kw['allow_create'] = True
+        else:
+            top = find_top_level_manifest(path, allow_compressed=True)
+        m = gem.ManifestRecursiveLoader(top, **kw)
+        m.update_entries_for_directory(
+            os.path.relpath(path, os.path.dirname(top)).replace('.', '', 1)
+            if os.path.relpath(path, os.path.dirname(top)) == '.'
+            else os.path.relpath(path, os.path.dirname(top)))
+        m.save_manifests(force=(cmd == 'create'))
+        return 0
+    oc = gem.call(run)
+    return oc, [], None
+
+
 def run_case(desc):
     import contextlib
     import shim
@@ -275,8 +311,11 @@ def run_case_ordered(desc):
         profile = o['profile']
         classes = ['profile:' + profile]
         tree = list_tree(root)
-        oc, records, _ = gem.cli(['create'] + cli_args(o) + [root])
+        oc, records, _ = run_gemato('create', o, root)
         what = f'`gemato create {" ".join(cli_args(o))}`'
+        if o.get('sort') is not None:
+            what += f' (through the library, sort={o["sort"]})'
+            classes.append(f'library-sort:{o["sort"]}')
         if oc.kind != 'return' or oc.value != 0:
             return violation(f'{what} failed: {oc.describe()} '
                              f'{[r.getMessage()[:100] for r in gem.error_records(records)]}',
@@ -317,7 +356,7 @@ def run_case_ordered(desc):
             if desc.get('opts2'):
                 o = dict(o, **desc['opts2'])
                 classes.append('update-with-other-compression-options')
-            oc, records, _ = gem.cli(['update'] + cli_args(o) + [root])
+            oc, records, _ = run_gemato('update', o, root)
             what = (f'`gemato update {" ".join(cli_args(o))}` after '
                     f'{desc["edits"]!r}')
             if oc.kind != 'return' or oc.value != 0:
